@@ -377,6 +377,61 @@ fn prepop_case(name: &str, naming: NamingK, clean: CleanK, append: bool, as_dir:
 
 // ---------------------------------------------------------------- (vii) write-mode extremes
 
+fn toml_inputs() -> Vec<String> {
+    let mut v: Vec<String> = [
+        "",
+        "global_level = 5",
+        "global_level = 'info'\nglobal_level = 'warn'",
+        "global_level = ['info']",
+        "global_level = ''",
+        "global_level = 'bogus'",
+        "global_pattern = 3",
+        "global_pattern = '('",
+        "global_pattern = 'x'\n[modules]",
+        "[modules]\n'a' = 7",
+        "[modules]\n'a' = 'wrong'",
+        "[modules]\n'' = 'info'",
+        "[modules]\n'a' = { b = 'info' }",
+        "[modules.a]\nb = 'info'",
+        "modules = 'info'",
+        "modules = []",
+        "[[modules]]\na = 'info'",
+        "[other]\nx = 1",
+        "global_level = 'info'\n[modules]\n'é::ü' = 'trace'\n\"a b\" = 'debug'",
+        "\u{0}",
+        "= = =",
+        "[modules",
+        "global_level = 'info' # comment\n\n\n",
+        "GLOBAL_LEVEL = 'info'",
+    ]
+    .iter()
+    .map(|s| (*s).to_string())
+    .collect();
+    v.push(format!("[modules]\n{}", (0..3000).map(|i| format!("'m{i}' = 'info'\n")).collect::<String>()));
+    v.push(format!("global_level = '{}'", "x".repeat(100_000)));
+    v.push(format!("{}x = 1", "[a]\n".repeat(1)));
+    v.push("[".repeat(5000));
+    v
+}
+
+fn toml_case(t: &str) -> Result<(), (String, String)> {
+    let _ = LogSpecification::from_toml(t);
+    // the same text as a specfile that exists when the logger starts
+    let sc = Scratch::new("c10t");
+    let path = sc.path().join("spec.toml");
+    std::fs::write(&path, t).map_err(|e| ("machinery".to_string(), e.to_string()))?;
+    let rec = Recorder::new(LevelFilter::Trace);
+    match Logger::with(LogSpecification::info()).log_to_writer(Box::new(rec)).error_channel(ErrorChannel::DevNull).build_with_specfile(&path) {
+        Err(_) => {}
+        Ok((logger, handle)) => {
+            lg::log_info(&*logger, "still alive");
+            drop(handle);
+            drop(logger);
+        }
+    }
+    Ok(())
+}
+
 /// Rotation parameters at their extremes: W R W W restart W shutdown must come back (a
 /// configuration problem reported as Err by build() is fine).
 fn rotation_extremes_case(i: usize) -> Result<(), (String, String)> {
@@ -797,6 +852,11 @@ fn run_unit(tier: &str, unit: usize, out: &mut Out) {
         });
         record(out, r, json!({"kind": "spec", "len": s.len()}), Some(format!("s{}", s.len())));
     }
+    // TOML texts for from_toml (and through a specfile read at start): anything but a panic
+    for (i, t) in toml_inputs().into_iter().enumerate() {
+        let r = guard("spec-toml", &format!("toml text #{i}"), move || toml_case(&t));
+        record(out, r, json!({"kind": "toml", "i": i}), Some(format!("t{i}")));
+    }
     for i in 0..N_ROTATION_EXTREMES {
         let r = guard("rotation-extremes", &format!("rotation parameters case {i}"), move || rotation_extremes_case(i));
         record(out, r, json!({"kind": "rotation-extremes", "i": i}), Some(format!("x{i}")));
@@ -849,6 +909,13 @@ fn replay(case: &Value) -> Vec<Violation> {
             let (ap, ad) = (case["append"].as_bool().unwrap_or(false), case["as_dir"].as_bool().unwrap_or(false));
             println!("replay C10: pre-existing {name:?} naming {naming:?} cleanup {clean:?} append {ap} dir {ad}");
             guard("prepopulated", "prepop", move || prepop_case(&name, naming, clean, ap, ad))
+        }
+        Some("toml") => {
+            let i = case["i"].as_u64().unwrap_or(0) as usize;
+            match toml_inputs().into_iter().nth(i) {
+                Some(t) => guard("spec-toml", "toml text", move || toml_case(&t)),
+                None => Ok(()),
+            }
         }
         Some("rotation-extremes") => {
             let i = case["i"].as_u64().unwrap_or(0) as usize;
